@@ -203,11 +203,9 @@ def fn_inotify_handleEvent : List SkOp := [
     ⟨"ifBegin", "ev.renamedFrom != \"\"", [], ["mu"]⟩,
     ⟨"table", "watches.wd", [], ["mu"]⟩,
     ⟨"loopBegin", "range w.watches.wd", [], ["mu"]⟩,
-    ⟨"ifBegin", "k == watch.wd || ww.path == ev.Name", [], ["mu"]⟩,
-    ⟨"branch", "continue", [], ["mu"]⟩,
-    ⟨"ifEnd", "", [], ["mu"]⟩,
-    ⟨"ifBegin", "strings.HasPrefix(ww.path, ev.renamedFrom)", [], ["mu"]⟩,
-    ⟨"table", "watches.wd", [], ["mu"]⟩,
+    ⟨"ifBegin", "ww.path == ev.renamedFrom || strings.HasPrefix(ww.path, ev.renamedFrom+\"/\")", [], ["mu"]⟩,
+    ⟨"table", "watches.path", [], ["mu"]⟩,
+    ⟨"table", "watches.path", [], ["mu"]⟩,
     ⟨"ifEnd", "", [], ["mu"]⟩,
     ⟨"loopEnd", "", [], ["mu"]⟩,
     ⟨"ifEnd", "", [], ["mu"]⟩,
@@ -482,7 +480,7 @@ def fn_watches_removePath : List SkOp := [
     ⟨"ifEnd", "", [], []⟩,
     ⟨"table", "watches.path", [], []⟩,
     ⟨"loopBegin", "range w.path", [], []⟩,
-    ⟨"ifBegin", "strings.HasPrefix(p, path)", [], []⟩,
+    ⟨"ifBegin", "strings.HasPrefix(p, path+\"/\")", [], []⟩,
     ⟨"table", "watches.path", [], []⟩,
     ⟨"table", "watches.wd", [], []⟩,
     ⟨"ifEnd", "", [], []⟩,
